@@ -9,6 +9,7 @@ import (
 	"github.com/google/uuid"
 	"github.com/wrgl/wrgl/pkg/ref"
 	"github.com/wrgl/wrgl/pkg/sqlutil"
+	"github.com/wrgl/wrgl/pkg/vhook"
 )
 
 var CreateTableStmts = []string{
@@ -51,6 +52,7 @@ func NewStore(db *sql.DB) *Store {
 }
 
 func (s *Store) Set(key string, sum []byte) error {
+	vhook.Write("ref", "set", []byte(key))
 	_, err := s.db.Exec(`INSERT INTO refs (name, sum) VALUES (?, ?) ON CONFLICT (name) DO UPDATE SET sum=excluded.sum`, key, sum)
 	return err
 }
@@ -65,6 +67,7 @@ func (s *Store) Get(key string) ([]byte, error) {
 }
 
 func (s *Store) SetWithLog(key string, sum []byte, rl *ref.Reflog) error {
+	vhook.Write("ref", "setlog", []byte(key))
 	return sqlutil.RunInTx(s.db, func(tx *sql.Tx) error {
 		row := tx.QueryRow(`SELECT sum FROM refs WHERE name = ?`, key)
 		oldSum := make([]byte, 16)
@@ -77,6 +80,7 @@ func (s *Store) SetWithLog(key string, sum []byte, rl *ref.Reflog) error {
 		); err != nil {
 			return err
 		}
+		vhook.Write("ref", "setlog.log", []byte(key))
 		var txid []byte
 		if rl.Txid != nil {
 			txid = (*rl.Txid)[:]
@@ -98,10 +102,12 @@ func (s *Store) SetWithLog(key string, sum []byte, rl *ref.Reflog) error {
 }
 
 func (s *Store) Delete(key string) error {
+	vhook.Write("ref", "del", []byte(key))
 	return sqlutil.RunInTx(s.db, func(tx *sql.Tx) error {
 		if _, err := tx.Exec(`DELETE FROM reflogs WHERE ref = ?`, key); err != nil {
 			return err
 		}
+		vhook.Write("ref", "del.ref", []byte(key))
 		_, err := tx.Exec(`DELETE FROM refs WHERE name = ?`, key)
 		return err
 	})
@@ -172,6 +178,7 @@ func (s *Store) FilterKey(prefixes []string, notPrefixes []string) (keys []strin
 }
 
 func (s *Store) Rename(oldKey, newKey string) (err error) {
+	vhook.Write("ref", "rename", []byte(oldKey))
 	return sqlutil.RunInTx(s.db, func(tx *sql.Tx) error {
 		row := tx.QueryRow(`SELECT sum FROM refs WHERE name = ?`, oldKey)
 		sum := make([]byte, 16)
@@ -184,6 +191,7 @@ func (s *Store) Rename(oldKey, newKey string) (err error) {
 		if _, err := tx.Exec(`UPDATE reflogs SET ref = ? WHERE ref = ?`, newKey, oldKey); err != nil {
 			return err
 		}
+		vhook.Write("ref", "rename.del", []byte(oldKey))
 		if _, err := tx.Exec(`DELETE FROM refs WHERE name = ?`, oldKey); err != nil {
 			return err
 		}
@@ -192,6 +200,7 @@ func (s *Store) Rename(oldKey, newKey string) (err error) {
 }
 
 func (s *Store) Copy(srcKey, dstKey string) (err error) {
+	vhook.Write("ref", "copy", []byte(dstKey))
 	return sqlutil.RunInTx(s.db, func(tx *sql.Tx) error {
 		if _, err := tx.Exec(
 			`INSERT INTO refs (name, sum) VALUES (?, (SELECT sum FROM refs WHERE name = ?))`,
@@ -224,6 +233,7 @@ func (s *Store) LogReader(key string) (ref.ReflogReader, error) {
 }
 
 func (s *Store) NewTransaction(tx *ref.Transaction) (*uuid.UUID, error) {
+	vhook.Write("ref", "tx.new", nil)
 	if tx == nil {
 		id := uuid.New()
 		tx = &ref.Transaction{
@@ -267,6 +277,7 @@ func (s *Store) GetTransaction(id uuid.UUID) (*ref.Transaction, error) {
 }
 
 func (s *Store) UpdateTransaction(tx *ref.Transaction) error {
+	vhook.Write("ref", "tx.update", tx.ID[:])
 	_, err := s.db.Exec(
 		`UPDATE transactions SET status = ?, begin = ?, end = ? WHERE id = ?`,
 		tx.Status, tx.Begin, tx.End, tx.ID[:],
@@ -275,6 +286,7 @@ func (s *Store) UpdateTransaction(tx *ref.Transaction) error {
 }
 
 func (s *Store) DeleteTransaction(id uuid.UUID) error {
+	vhook.Write("ref", "tx.delete", id[:])
 	return sqlutil.RunInTx(s.db, func(tx *sql.Tx) error {
 		row := tx.QueryRow(`SELECT status FROM transactions WHERE id = ?`, id[:])
 		var status ref.TransactionStatus
